@@ -312,15 +312,26 @@ class Mini:
                 if isinstance(p, ast.Constant):
                     parts.append(str(p.value))
                 elif isinstance(p, ast.FormattedValue):
+                    if p.conversion == 114:
+                        parts.append("<repr>")
+                        continue
                     v = self.expr(p.value)
                     if p.format_spec is not None or not isinstance(v, (str, int)):
                         raise Unsupported("formatted value")
                     if p.conversion == 114:
-                        raise Unsupported("!r conversion")
+                        parts.append("<repr>")
+                        continue
                     parts.append(str(v))
             return "".join(parts)
         if isinstance(e, ast.Subscript):
             obj = self.expr(e.value)
+            if isinstance(obj, dict) and not isinstance(e.slice, ast.Slice):
+                k = self.expr(e.slice)
+                if not isinstance(k, (str, int)):
+                    raise Unsupported("dict key")
+                if k not in obj:
+                    raise Raised("KeyError")
+                return obj[k]
             if not isinstance(obj, (list, tuple, str)):
                 raise Unsupported("subscript of " + type(obj).__name__)
             try:
@@ -400,6 +411,8 @@ class Mini:
         raise Unsupported(f"expression {type(e).__name__}")
 
     def call(self, e: ast.Call) -> Any:
+        if e.keywords and isinstance(e.func, ast.Name) and e.func.id in self.externals and all(k.arg for k in e.keywords):
+            return self.externals[e.func.id](*[self.expr(a) for a in e.args], **{k.arg: self.expr(k.value) for k in e.keywords})
         if e.keywords and not (isinstance(e.func, ast.Attribute) and e.func.attr == "format"):
             raise Unsupported("keyword arguments")
         if isinstance(e.func, ast.Attribute):
@@ -458,14 +471,19 @@ class Mini:
                 sub = Mini(dict(self.env), self.helpers, self.externals, self.fuel)
                 for p, a in zip(params, e.args):
                     sub.env[p] = self.expr(a)
+                nonlocals = [nm for s in ast.walk(fn) if isinstance(s, ast.Nonlocal) for nm in s.names]
+                ret = None
                 try:
                     for s in fn.body:
                         sub.stmt(s)
                 except _Return as r:
-                    self.fuel = sub.fuel
-                    return r.value
+                    ret = r.value
                 self.fuel = sub.fuel
-                return None
+                for nm in nonlocals:
+                    if nm in sub.env:
+                        self.env[nm] = sub.env[nm]
+                # mutable containers are shared by reference already; other names assigned in the helper stay local to it
+                return ret
             args = [self.expr(a) for a in e.args]
             if f == "len" and len(args) == 1 and isinstance(args[0], (list, tuple, str)):
                 return len(args[0])
